@@ -329,6 +329,19 @@ def seq_component(ctx, comp, specdir, impl, emit_cfg, trace_mod, trace_cfg, gocm
     if ws["edges_covered"] < ws["edges_total"] and not ws["suspects"]:
         raise Inconclusive("%s walk covered only %d of %d edges" % (comp, ws["edges_covered"], ws["edges_total"]))
     # ---- E2: random traces from the real code
+    if rand_n <= 0:
+        tf = os.path.join(outd, "walk_traces.ndjson")
+        ok, line, n = ctx.validate_trace(specdir, trace_mod, trace_cfg, tf, tag=comp + "_walk")
+        log("TLC trace validation %s walk_traces: %d events, %s" % (comp, n, "accepted" if ok else "REJECTED at line %s" % line))
+        if ok:
+            ctx.cov["traces_validated_against_impl"] += ws["traces_written"]
+        else:
+            start, events = locate_trace(tf, line)
+            bad = events[line - start] if line - start < len(events) else {}
+            rp = trace_to_replay(comp, events[: line - start + 1])
+            ctx.violation("%s: abstract spec rejects event %d of a real-code trace: %s" % (comp, line - start, json.dumps(bad)[:300]), rp,
+                          key="%s/trace/%s" % (kp, bad.get("ev")))
+        return ws, None
     ctx.run([binp, "rand", "-out", outd, "-n", str(rand_n), "-len", str(rand_len), "-seed", str(ctx.seed)] + list(rand_args), timeout=3000)
     rs = read_json(os.path.join(outd, "rand_stats.json"))
     ctx.cov["engines"].append({"engine": "E2 tracecheck", "component": comp, "traces": rs["traces"], "events": rs["events"], "op_count": rs["op_count"]})
@@ -354,6 +367,8 @@ def seq_component(ctx, comp, specdir, impl, emit_cfg, trace_mod, trace_cfg, gocm
 COMPONENTS = {
     "Ring": ("ring", ["ringz"], "Ring", "RingTrace", "Trace.cfg"),
     "SyncRingSeq": ("syncringseq", ["ringz"], "SyncRingSeq", "FifoTrace", "Trace.cfg"),
+    "DList": ("dlist", [], "DList", "DListTrace", "Trace_thorough.cfg"),
+    "SList": ("slist", [], "SList", "SListTrace", "Trace.cfg"),
 }
 
 
